@@ -296,6 +296,13 @@ pub fn special_asts() -> Vec<Ast> {
         Ast::ConcatList(vec![Ast::Range(A + 2, A + 2), Ast::Loop(a(), 0, 2), Ast::Loop(a(), 0, 2), Ast::Range(A + 2, A + 2)]),
         Ast::ConcatList(vec![Ast::Star(a()), Ast::Star(a()), Ast::Eps, Ast::Range(A + 1, A + 1)]),
         Ast::ConcatList(vec![]),
+        // derivative classes that leave exactly one character (the last one / the first one) to the complementary class
+        Ast::Range(0, MAXC - 1),
+        Ast::Range(1, MAXC),
+        Ast::Inter(vec![
+            Ast::Concat(Box::new(Ast::Range(A + 1, A + 1)), Box::new(Ast::Comp(Box::new(Ast::Union(vec![Ast::Eps, Ast::Concat(Box::new(Ast::Range(0, MAXC - 1)), Box::new(Ast::Full))]))))),
+            Ast::Comp(Box::new(Ast::Range(A + 2, A + 2))),
+        ]),
         Ast::DiffList(Box::new(Ast::Plus(Box::new(Ast::Range(A, A + 2)))), vec![Ast::Inter(vec![Ast::Exp(Box::new(Ast::AllChars), 3), Ast::Concat(a(), Box::new(Ast::Full))])]),
         Ast::DiffList(Box::new(Ast::Full), vec![]),
         Ast::Range(A, A),
@@ -899,13 +906,15 @@ pub fn c18(ctx: &mut Ctx) -> Option<Failure> {
             }
             // start_class agrees with the emptiness of the class derivative, for every valid class
             let mut cids: Vec<ClassId> = (0..e.char_ranges().count()).map(ClassId::Interval).collect();
-            if !e.empty_complement() {
+            // the complementary class is valid exactly when the (disjoint) intervals leave a character uncovered
+            let covered: u64 = e.char_ranges().map(|s| s.size() as u64).sum();
+            if covered < MAXC as u64 + 1 {
                 cids.push(ClassId::Complement);
             }
             for cid in cids {
                 let d = match m.class_derivative(e, cid) {
                     Ok(d) => d,
-                    Err(_) => continue,
+                    Err(err) => return fail("ReManager::class_derivative(valid class)", format!("{} class {:?}", show(&ast), cid), "Ok(derivative)".into(), format!("Err({:?})", err)),
                 };
                 let exp = !m.is_empty_re(d);
                 match m.start_class(e, cid) {
